@@ -72,16 +72,18 @@ def shape_of(n, marks=None, path=()):
         l = shape_of(n.args[0], marks, path + (0,))
         if op in ('is', 'is not') and type(n.args[1]).__name__ == 'NullConstant':
             return ('isnull' if op == 'is' else 'isnotnull', l)
-        if op == 'in':
+        if op in ('in', 'not in'):
             r = n.args[1]
             if type(r).__name__ == 'Tuple':
                 items = [shape_of(i) for i in r.items]
             else:
                 items = [shape_of(r)]
-            return ('in', l, items)
+            return ('in' if op == 'in' else 'notin', l, items)
         r = shape_of(n.args[1], marks, path + (1,))
         if op == 'like':
             return ('like', l, r)
+        if op == 'not like':
+            return ('notlike', l, r)
         if op == '<>':
             op = '!='
         if op in ('and', 'or'):
@@ -202,6 +204,9 @@ def trees(ctx):
         yield 'rand', X.random_tree(r, r.randint(4, 7))
 
 
+# a comment (and only then) between the two words of IS NOT / NOT IN / NOT LIKE: group(1) .. group(2)
+_C = r'(?:/\*(?:(?!\*/).)*\*/|--[^\n]*\n)'
+HEAL = re.compile(r'(?is)\b(IS|NOT)\s*' + _C + r'(?:\s|' + _C + r')*(NOT|IN|LIKE)\b')
 BLANKS = [' ', '\n', '\t', '  ', '\r\n', '\n   ', ' /* c */ ', ' -- c\n', '\n\n']
 
 
@@ -220,6 +225,16 @@ def run_shard(ctx):
                 supported.add((d, c))
             except Exception:
                 acc.add('contexts_unsupported', f'{d}:{c}')
+    # operator spellings a dialect does not have at all (NOT LIKE outside the mindsdb dialect) are not judged there
+    kind_ok = {}
+    for d in DIALECTS:
+        for kind, probe in (('notlike', 'a NOT LIKE b'), ('notin', 'a NOT IN (1, 2)')):
+            try:
+                parse_sql('SELECT ' + probe + ' FROM t', d)
+                kind_ok[(d, kind)] = True
+            except Exception:
+                kind_ok[(d, kind)] = False
+                acc.add('kinds_unsupported', f'{d}:{kind}')
     idx = -1
     for label, shape in trees(ctx):
         idx += 1
@@ -259,6 +274,8 @@ def run_shard(ctx):
                 for dialect in DIALECTS:
                     if (dialect, c) not in supported:
                         continue
+                    if any(not kind_ok.get((dialect, X.kind_of(nd)), True) for nd in _nodes(bare)):
+                        continue
                     if c in ('where', 'having', 'on') and _is_plain_value(bare):
                         # WHERE/HAVING demand an operation; a folded constant such as -1 is not one (not a grouping matter)
                         acc.count('skipped_non_boolean_context')
@@ -278,6 +295,18 @@ def run_shard(ctx):
                         ast = parse_sql(sql, dialect)
                     except ParsingException as e:
                         acc.count('rejected')
+                        if etext != text:
+                            # C03-F2's other face: the words of NOT IN / NOT LIKE separated by a comment are rejected
+                            healed = HEAL.sub(lambda m_: m_.group(1) + ' ' + m_.group(2), etext)
+                            if healed != etext:
+                                try:
+                                    nodes2 = list(find_expr(parse_sql(CONTEXTS[c].format(e=healed), dialect), c))
+                                    if nodes2 and all(fold_neg(fold_neg(shape_of(n2, {}))) == fold_neg(fold_neg(bare)) for n2 in nodes2):
+                                        acc.fail({'kind': 'precedence', 'dialect': dialect, 'cause': 'comment-inside-two-word-operator'},
+                                                 {'sql': sql, 'dialect': dialect, 'error': str(e)[:200], 'outcome': 'rejected'})
+                                        continue
+                                except Exception:
+                                    pass
                         kinds = sorted({X.opclass(X.kind_of(n)) for n in _nodes(bare)})
                         sig = {'kind': 'rejected', 'dialect': dialect, 'context': c if nops == 0 else '*',
                                'ops': '+'.join(kinds) if len(kinds) <= 2 else _reduce_rejection(parse_sql, dialect, bare, ParsingException)}
@@ -309,12 +338,12 @@ def run_shard(ctx):
                             # stand between IS and NOT (and only those; a gap of white space alone is left as it is) are replaced by a blank?
                             sig['cause'] = '-'
                             if etext != text:
-                                healed = re.sub(r'(?i)\bIS\s*(?:/\*(?:(?!\*/).)*\*/|--[^\n]*\n)(?:\s|/\*(?:(?!\*/).)*\*/|--[^\n]*\n)*NOT\b', 'IS NOT', etext, flags=re.S)
+                                healed = HEAL.sub(lambda m_: m_.group(1) + ' ' + m_.group(2), etext)
                                 if healed != etext:
                                     try:
                                         nodes2 = list(find_expr(parse_sql(CONTEXTS[c].format(e=healed), dialect), c))
                                         if nodes2 and all(fold_neg(fold_neg(shape_of(n2, {}))) == fold_neg(fold_neg(bare)) for n2 in nodes2):
-                                            sig = {'kind': 'precedence', 'dialect': dialect, 'cause': 'comment-between-IS-and-NOT'}
+                                            sig = {'kind': 'precedence', 'dialect': dialect, 'cause': 'comment-inside-two-word-operator'}
                                     except Exception:
                                         pass
                             full_got = _safe_full(got)
